@@ -1,3 +1,318 @@
+import Bch.Proofs.F64
+import Bch.Proofs.Amount
+/-
+  Property C17 — amounts convert between BCH floats, satoshi integers and text without loss.
+
+  Objects: `Bch.Prim.F64` (binary64 on bit patterns: `mul`, `div`, `ofInt`, `roundHalfAway` = Go `math.Round`,
+  `truncToInt`, `pow10`, `formatF`) and `Bch.Model.Amount` (`NewAmount`, `ToUnit`, `ToBCH`, `Format`,
+  `unitString`).  Specification vocabulary (defined in `Bch/Proofs/F64*.lean`):
+
+  * `val : UInt64 → Option ℚ`   exact value `m·2^e` of a finite float (from `decode`), `none` for NaN/±Inf,
+                                 `-0 ↦ 0`;
+  * `IsRN q x`                   `x` is finite, no finite float is strictly closer to `q` than `val x`, if
+                                 another float value is equally close the significand of `x` is even, and a
+                                 non-zero `q` gives its sign to `x` (IEEE round-to-nearest-even);
+  * `roundAway v : ℤ`            the integer nearest to `v`, ties away from zero
+                                 (`roundAway_is_nearest_ties_away` below pins that down).
+
+  All theorems are unconditional about the *model*; hypotheses are the stated ranges only.
+-/
 namespace Bch.Props.C17
-theorem placeholder : True := trivial
+open Bch.Prim.F64 Bch.Model.Amount Bch.Proofs.F64 Bch.Proofs.Amount
+
+/-! ## 0. The specification vocabulary means what it says -/
+
+/-- `val` is `decode` read as the rational `m·2^e`. -/
+theorem val_decode (x : UInt64) :
+    val x = (decode x).map (fun p => (p.1 : ℚ) * (2:ℚ) ^ p.2) := rfl
+
+/-- `roundAway v` is an integer within `1/2` of `v`, and in a tie it is the one farther from zero. -/
+theorem roundAway_is_nearest_ties_away (v : ℚ) :
+    |v - roundAway v| ≤ 1/2 ∧ (|v - roundAway v| = 1/2 → |v| < |(roundAway v : ℚ)|) :=
+  ⟨roundAway_near v, roundAway_tie v⟩
+
+/-! ## 1. `float64(int64)` -/
+
+/-- Integers of magnitude below `2^53` convert exactly. -/
+theorem ofInt_exact (i : Int) (h : |i| < 2^53) : val (ofInt i) = some (i : ℚ) :=
+  ofInt_exact_val i (by rw [Int.abs_eq_natAbs] at h; exact_mod_cast h)
+
+example : |(-2100000000000000 : Int)| < 2^53 := by decide
+
+/-- `float64(int64)` is correctly rounded for every integer that does not overflow. -/
+theorem ofInt_isRN (i : Int) (hfin : isFinite (ofInt i) = true) : IsRN (i : ℚ) (ofInt i) :=
+  Bch.Proofs.F64.ofInt_isRN i hfin
+
+example : isFinite (ofInt 9007199254740993) = true := by decide +kernel
+
+/-- The conversion is odd. -/
+theorem ofInt_odd (i : Int) (h : i ≠ 0) : ofInt (-i) = neg (ofInt i) := ofInt_neg i h
+
+/-! ## 5. The rounding routine and the arithmetic are correctly rounded (all ranges, incl. subnormals) -/
+
+/-- **Core lemma.** `roundScaled sg M e sticky` with a finite result is the correctly rounded value of
+`± qa`, where `qa` is the exact magnitude: `qa = M·2^e` if `sticky = false`, `M·2^e < qa < (M+1)·2^e`
+if `sticky = true` (the documented precondition on `sticky` is `hstk`). -/
+theorem roundScaled_isRN (sg : Bool) (M : Nat) (e : Int) (sticky : Bool) (hM : M ≠ 0) (qa : ℚ)
+    (hq1 : (M:ℚ) * 2^e ≤ qa) (hq2 : qa < ((M:ℚ) + 1) * 2^e) (hst : sticky = true ↔ qa ≠ (M:ℚ) * 2^e)
+    (hstk : sticky = true → (2^54 ≤ M ∨ e < -1074))
+    (hfin : isFinite (roundScaled sg M e sticky) = true) :
+    IsRN (if sg then -qa else qa) (roundScaled sg M e sticky) :=
+  Bch.Proofs.F64.roundScaled_isRN sg M e sticky hM qa hq1 hq2 hst hstk hfin
+
+example : isFinite (roundScaled false 3 (-1076) false) = true := by decide +kernel
+
+/-- IEEE multiplication: a finite product of finite operands is the correctly rounded exact product. -/
+theorem mul_isRN (a b : UInt64) (va vb : ℚ) (ha : val a = some va) (hb : val b = some vb)
+    (hfin : isFinite (mul a b) = true) : IsRN (va * vb) (mul a b) :=
+  mul_isRN_val a b va vb ha hb hfin
+
+/-- … and the product is finite whenever the exact product is below `2^1023` in magnitude. -/
+theorem mul_finite (a b : UInt64) (va vb : ℚ) (ha : val a = some va) (hb : val b = some vb)
+    (hlt : |va * vb| < 2^1023) : isFinite (mul a b) = true :=
+  mul_finite_val a b va vb ha hb hlt
+
+/-- IEEE division by a non-zero finite divisor. -/
+theorem div_isRN (a b : UInt64) (va vb : ℚ) (ha : val a = some va) (hb : val b = some vb)
+    (hvb : vb ≠ 0) (hfin : isFinite (div a b) = true) : IsRN (va / vb) (div a b) :=
+  div_isRN_val a b va vb ha hb hvb hfin
+
+theorem div_finite (a b : UInt64) (va vb : ℚ) (ha : val a = some va) (hb : val b = some vb)
+    (hvb : vb ≠ 0) (hlt : |va / vb| < 2^1023) : isFinite (div a b) = true :=
+  div_finite_val a b va vb ha hb hvb hlt
+
+-- non-vacuity: 0.1 * 3 and 0.1 / 3 are finite products/quotients of finite floats
+example : isFinite 0x3fb999999999999a = true ∧ isFinite 0x4008000000000000 = true ∧
+    isFinite (mul 0x3fb999999999999a 0x4008000000000000) = true ∧
+    isFinite (div 0x3fb999999999999a 0x4008000000000000) = true := by decide +kernel
+
+/-- Relative error `2^-53` of a multiplication in the normal range. -/
+theorem mul_relerr (a b : UInt64) (va vb v : ℚ) (ha : val a = some va) (hb : val b = some vb)
+    (hp : val (mul a b) = some v) (hnorm : (2:ℚ)^(-1022 : Int) ≤ |va * vb|) :
+    |v - va * vb| ≤ |va * vb| / 2^53 := by
+  obtain ⟨ha1, ha2⟩ := (val_eq_some_iff a va).mp ha
+  obtain ⟨hb1, hb2⟩ := (val_eq_some_iff b vb).mp hb
+  obtain ⟨hp1, hp2⟩ := (val_eq_some_iff _ v).mp hp
+  rw [← ha2, ← hb2] at hnorm ⊢
+  rw [← hp2]
+  exact Bch.Proofs.F64.mul_relerr a b ha1 hb1 hp1 hnorm
+
+/-! ## 4. `math.Round` and `NewAmount` is "nearest integer, ties away from zero" -/
+
+/-- Go's `math.Round` on a finite float returns the float whose value is the nearest integer, ties away
+from zero; truncating it to an integer is then exact; floats of magnitude `≥ 2^52` are returned
+unchanged. -/
+theorem roundHalfAway_spec (a : UInt64) (v : ℚ) (ha : val a = some v) :
+    val (roundHalfAway a) = some (roundAway v : ℚ) ∧
+    truncToInt (roundHalfAway a) = some (roundAway v) ∧
+    ((2:ℚ)^52 ≤ |v| → roundHalfAway a = a) :=
+  roundHalfAway_val a v ha
+
+/-- `1e8` is exact. -/
+theorem satoshiPerBitcoin_exact : val satoshiPerBitcoin = some (100000000 : ℚ) := val_sat
+
+/-- **C17 nearest.** For finite `f` with value `vf`, let `p = f * 1e8` (one IEEE multiplication, i.e. the
+correctly rounded value of `vf·10^8`).  If `p` is finite with `|p| < 2^62`, `NewAmount f` is the integer
+nearest to `p`, ties away from zero. -/
+theorem C17_newAmount_nearest (f : UInt64) (vf v : ℚ) (hf : val f = some vf)
+    (hp : val (mul f satoshiPerBitcoin) = some v) (hr : |v| < 2^62) :
+    IsRN (vf * 100000000) (mul f satoshiPerBitcoin) ∧ NewAmount f = some (roundAway v) := by
+  obtain ⟨hf1, _⟩ := (val_eq_some_iff f vf).mp hf
+  obtain ⟨hp1, hp2⟩ := (val_eq_some_iff _ v).mp hp
+  refine ⟨mul_isRN_val f _ vf _ hf val_sat hp1, ?_⟩
+  rw [← hp2] at hr ⊢
+  exact newAmount_nearest f hf1 hp1 hr
+
+-- non-vacuity: f = 1.0
+example : ∃ vf v, val 0x3FF0000000000000 = some vf ∧
+    val (mul 0x3FF0000000000000 satoshiPerBitcoin) = some v ∧ |v| < 2^62 := by
+  refine ⟨1, 100000000, ?_, by rw [one_times_sat]; exact val_sat, by norm_num⟩
+  have := val_of_checkNat 0x3FF0000000000000 1 (by decide +kernel)
+  simpa using this
+
+/-- **C17 nearest, all finite inputs** (covers the guard branches): with `p = f * 1e8`, the result is the
+nearest integer to `p` (ties away) when `p` is finite and that integer fits an `int64`; in every other case
+(overflow of the product to ±Inf, or an integer outside `int64`) it is `math.MinInt64`, the amd64 result of
+an out-of-range float→int conversion. -/
+theorem C17_newAmount_total (f : UInt64) (vf : ℚ) (hf : val f = some vf) :
+    NewAmount f = some
+      (match val (mul f satoshiPerBitcoin) with
+       | some v => if -(2^63 : Int) ≤ roundAway v ∧ roundAway v < 2^63 then roundAway v else -(2^63 : Int)
+       | none => -(2^63 : Int)) := by
+  rw [newAmount_total f ((val_eq_some_iff f vf).mp hf).1, val_eq]
+  by_cases h : isFinite (mul f satoshiPerBitcoin) = true
+  · simp only [h, true_and, if_true]
+  · simp [h]
+
+-- the saturating branch is inhabited (a finite float of about 1e300 BCH)
+example : isFinite 0x7E37E43C8800759C = true ∧ NewAmount 0x7E37E43C8800759C = some (-(2^63)) := by
+  decide +kernel
+
+/-- `MulF64 a f = round(float64(a) * f)`: nearest integer (ties away) to the single-rounded product. -/
+theorem C17_mulF64_nearest (a : Int) (f : UInt64) (vf v : ℚ) (ha : |a| < 2^53) (hf : val f = some vf)
+    (hp : val (mul (ofInt a) f) = some v) (hr : |v| < 2^62) :
+    IsRN ((a:ℚ) * vf) (mul (ofInt a) f) ∧ MulF64 a f = roundAway v := by
+  obtain ⟨hp1, hp2⟩ := (val_eq_some_iff _ v).mp hp
+  have hx := ofInt_exact_val a (by rw [Int.abs_eq_natAbs] at ha; exact_mod_cast ha)
+  refine ⟨mul_isRN_val _ f _ vf hx hf hp1, ?_⟩
+  rw [← hp2] at hr ⊢
+  exact mulF64_nearest a f hp1 hr
+
+example : MulF64 100000000 0x3FB999999999999A = 10000000 := by decide +kernel  -- 1 BCH * 0.1
+
+/-! ## 2. Rejection of NaN / ±Inf -/
+
+theorem C17_newAmount_rejects (f : UInt64) (h : isNaN f = true ∨ isInf f = true) :
+    NewAmount f = none := newAmount_rejects f h
+
+theorem C17_newAmount_accepts (f : UInt64) (h1 : isNaN f = false) (h2 : isInf f = false) :
+    NewAmount f ≠ none := by
+  rw [newAmount_accepts f ⟨h1, h2⟩]; simp
+
+example : isNaN nan = true ∧ isInf posInf = true ∧ isInf negInf = true ∧
+    isNaN 0x3FF0000000000000 = false ∧ isInf 0x3FF0000000000000 = false := by decide
+
+/-! ## 3. Odd symmetry -/
+
+/-- **C17 odd.** Negating a finite input negates the amount, as long as `|f·1e8| < 2^62`
+(beyond `2^63` both signs saturate to `math.MinInt64`, so the bound is needed). `-0` and `+0` both give 0. -/
+theorem C17_newAmount_odd (f : UInt64) (vf v : ℚ) (hf : val f = some vf)
+    (hp : val (mul f satoshiPerBitcoin) = some v) (hr : |v| < 2^62) :
+    NewAmount (neg f) = (NewAmount f).map (fun x => -x) := by
+  obtain ⟨hf1, _⟩ := (val_eq_some_iff f vf).mp hf
+  obtain ⟨hp1, hp2⟩ := (val_eq_some_iff _ v).mp hp
+  rw [← hp2] at hr
+  exact newAmount_odd f hf1 hp1 hr
+
+example : NewAmount (neg 0x3FF0000000000000) = some (-100000000) ∧
+    NewAmount 0x8000000000000000 = some 0 := by decide +kernel
+
+/-! ## 6. Monotonicity -/
+
+/-- **C17 monotone.** `f < g` (IEEE comparison) implies `NewAmount f ≤ NewAmount g` for finite inputs in
+range. -/
+theorem C17_newAmount_mono (f g : UInt64) (vf vg v w : ℚ) (hf : val f = some vf) (hg : val g = some vg)
+    (hlt : lt f g = true)
+    (hpf : val (mul f satoshiPerBitcoin) = some v) (hrf : |v| < 2^62)
+    (hpg : val (mul g satoshiPerBitcoin) = some w) (hrg : |w| < 2^62) :
+    ∃ x y, NewAmount f = some x ∧ NewAmount g = some y ∧ x ≤ y := by
+  obtain ⟨hf1, _⟩ := (val_eq_some_iff f vf).mp hf
+  obtain ⟨hg1, _⟩ := (val_eq_some_iff g vg).mp hg
+  obtain ⟨hp1, hp2⟩ := (val_eq_some_iff _ v).mp hpf
+  obtain ⟨hq1, hq2⟩ := (val_eq_some_iff _ w).mp hpg
+  rw [← hp2] at hrf
+  rw [← hq2] at hrg
+  exact newAmount_mono f g hf1 hg1 hlt hp1 hrf hq1 hrg
+
+/-- the IEEE order on finite floats is the order of the values -/
+theorem lt_val (a b : UInt64) (va vb : ℚ) (ha : val a = some va) (hb : val b = some vb)
+    (h : lt a b = true) : va < vb := by
+  rw [← ((val_eq_some_iff a va).mp ha).2, ← ((val_eq_some_iff b vb).mp hb).2]
+  exact fval_lt_of_lt a b h
+
+/-- correct rounding is monotone (the reason behind `C17_newAmount_mono`) -/
+theorem IsRN_mono (q1 q2 : ℚ) (x1 x2 : UInt64) (v1 v2 : ℚ) (hq : q1 < q2)
+    (h1 : IsRN q1 x1) (h2 : IsRN q2 x2) (hv1 : val x1 = some v1) (hv2 : val x2 = some v2) : v1 ≤ v2 := by
+  rw [← ((val_eq_some_iff x1 v1).mp hv1).2, ← ((val_eq_some_iff x2 v2).mp hv2).2]
+  exact isRN_mono hq h1 h2
+
+-- non-vacuity: 4.999999999999999e-09 < 1.0, and the hypotheses of `C17_newAmount_mono` for 1.0 < 2.0
+example : lt 0x3E35798EE2308C39 0x3FF0000000000000 = true := by decide +kernel
+example : val 0x3FF0000000000000 = some ((1:ℕ):ℚ) ∧ val 0x4000000000000000 = some ((2:ℕ):ℚ) ∧
+    lt 0x3FF0000000000000 0x4000000000000000 = true ∧
+    val (mul 0x3FF0000000000000 satoshiPerBitcoin) = some ((100000000:ℕ):ℚ) ∧
+    |(((100000000:ℕ):ℚ))| < 2^62 ∧
+    val (mul 0x4000000000000000 satoshiPerBitcoin) = some ((200000000:ℕ):ℚ) ∧
+    |(((200000000:ℕ):ℚ))| < 2^62 :=
+  ⟨val_of_checkNat _ _ (by decide +kernel), val_of_checkNat _ _ (by decide +kernel), by decide +kernel,
+   val_of_checkNat _ _ (by decide +kernel), by norm_num,
+   val_of_checkNat _ _ (by decide +kernel), by norm_num⟩
+
+/-! ## 7. Round trip -/
+
+/-- **C17 round trip.** Every amount up to the 21-million-coin cap survives `ToBCH` followed by
+`NewAmount` (two roundings: `a / 1e8`, then `· * 1e8`; total error `≤ |a|·(2^-52 + 2^-106) < 0.47`). -/
+theorem C17_roundtrip (a : Int) (ha : |a| ≤ 2100000000000000) : NewAmount (ToBCH a) = some a :=
+  roundtrip a (by rw [Int.abs_eq_natAbs] at ha; exact_mod_cast ha)
+
+example : NewAmount (ToBCH 2100000000000000) = some 2100000000000000 ∧
+    NewAmount (ToBCH (-1234567890123457)) = some (-1234567890123457) := by decide +kernel
+
+/-! ## 8. Unit conversion -/
+
+/-- `math.Pow10(k)` is exactly `10^k` for `0 ≤ k ≤ 22`. -/
+theorem pow10_exact (k : Nat) (hk : k ≤ 22) : val (pow10 (k : Int)) = some ((10:ℚ)^k) :=
+  Bch.Proofs.Amount.pow10_exact k hk
+
+/-- **C17 toUnit.** For `|a| ≤ 2.1·10^15` and `-12 ≤ u ≤ 12`, `ToUnit a u` is the correctly rounded value of
+`a / 10^(u+8)`: one rounding only (also for units below the satoshi, where the fixed code multiplies by the
+exact `10^-(u+8)`). -/
+theorem C17_toUnit (a u : Int) (ha : |a| ≤ 2100000000000000) (hu1 : -12 ≤ u) (hu2 : u ≤ 12) :
+    IsRN ((a:ℚ) / (10:ℚ)^(u + 8)) (ToUnit a u) :=
+  toUnit_isRN a u (by rw [Int.abs_eq_natAbs] at ha; omega) (by omega) (by omega)
+
+/-- The same for the whole range in which both `float64(a)` and the power of ten are exact. -/
+theorem C17_toUnit_wide (a u : Int) (ha : |a| < 2^53) (hu1 : -30 ≤ u) (hu2 : u ≤ 14) :
+    IsRN ((a:ℚ) / (10:ℚ)^(u + 8)) (ToUnit a u) :=
+  toUnit_isRN a u (by rw [Int.abs_eq_natAbs] at ha; exact_mod_cast ha) hu1 hu2
+
+-- the historical witness: 1068211668854925 in unit 1e-11 BCH is now 1.068211668854925e18
+example : ToUnit 1068211668854925 (-11) = 0x43ada619b4d60cce := by decide +kernel
+
+/-! ## 9. Labels -/
+
+theorem C17_unit_labels :
+    unitString 6 = "MBCH" ∧ unitString 3 = "kBCH" ∧ unitString 0 = "BCH" ∧
+    unitString (-3) = "mBCH" ∧ unitString (-6) = "μBCH" ∧ unitString (-8) = "Satoshi" ∧
+    ∀ u : Int, u ≠ 6 → u ≠ 3 → u ≠ 0 → u ≠ -3 → u ≠ -6 → u ≠ -8 →
+      unitString u = "1e" ++ toString u ++ " BCH" := by
+  obtain ⟨h1, h2, h3, h4, h5, h6⟩ := unitString_named
+  exact ⟨h1, h2, h3, h4, h5, h6, fun u a b c d e f => unitString_other u ⟨a, b, c, d, e, f⟩⟩
+
+example : unitString 7 = "1e7 BCH" ∧ unitString (-11) = "1e-11 BCH" := by decide
+
+/-- `Format` is the `FormatFloat` text of `ToUnit a u` with precision `-(u+8)`, a space, and the label. -/
+theorem C17_format_suffix (a u : Int) :
+    Format a u = formatF (ToUnit a u) (-(u + 8)) ++ " " ++ unitString u := format_eq a u
+
+/-! ## 10. Text: proved fragment
+
+  Intended full theorem (NOT proved here; `formatF` with negative precision is the shortest-round-trip
+  digit search, whose correctness proof is out of reach in this round):
+
+    for `|a| ≤ 2.1·10^15` and `-8 ≤ u ≤ 12`, `Format a u` is the exact decimal expansion of
+    `a·10^-(u+8)` (no more than `u+8` fractional digits, trailing zeros trimmed) followed by
+    `" " ++ unitString u`;
+    for `u < -8` the text (fixed precision 0 … of `a·10^-(u+8)`) is exact only while
+    `|a|·10^-(u+8) < 2^53` — beyond that the float nearest to the product is printed, which is a documented
+    known finding, not a defect of the model.
+
+  Proved: the precision-0 printer is exact on integer-valued floats, hence the base unit (`u = -8`,
+  "Satoshi") prints exactly the integer for every `|a| < 2^53`.
+-/
+
+/-- `FormatFloat(x, 'f', 0, 64)` of a finite integer-valued float prints that integer. -/
+theorem formatF_integer (x : UInt64) (z : ℤ) (hx : val x = some (z : ℚ)) :
+    formatF x 0 = (if isNeg x then "-" else "") ++ toString z.natAbs := by
+  obtain ⟨h1, h2⟩ := (val_eq_some_iff x z).mp hx
+  exact formatF_int x h1 z h2
+
+/-- Partial form of the text theorem: unit `Satoshi` only (`u = -8`); missing: all other units, see the
+comment above. -/
+theorem C17_format_partial (a : Int) (ha : |a| < 2^53) :
+    Format a (-8) = toString a ++ " Satoshi" :=
+  format_satoshi a (by rw [Int.abs_eq_natAbs] at ha; exact_mod_cast ha)
+
+example : Format (-2100000000000000) (-8) = "-2100000000000000 Satoshi" := by decide +kernel
+
+/-! ## 11. The two historical witnesses now behave -/
+
+-- 4.999999999999999e-09 BCH is 0 satoshi (the old `+0.5`-and-truncate code returned 1)
+example : NewAmount 0x3E35798EE2308C39 = some 0 := by decide +kernel
+-- 45035996.27370497 BCH is 4503599627370497 satoshi (the old code returned …498)
+example : NewAmount 0x4185798EE2308C3B = some 4503599627370497 := by decide +kernel
+-- the products are the near-tie values the old code mishandled
+example : mul 0x3E35798EE2308C39 satoshiPerBitcoin = 0x3FDFFFFFFFFFFFFF ∧
+    mul 0x4185798EE2308C3B satoshiPerBitcoin = 0x4330000000000001 := by decide +kernel
+
 end Bch.Props.C17
